@@ -14,6 +14,8 @@ import shutil
 import subprocess
 import sys
 import tempfile
+import signal
+signal.signal(signal.SIGPIPE, signal.SIG_DFL)
 
 HERE = os.path.dirname(os.path.dirname(os.path.abspath(__file__)))
 
